@@ -147,6 +147,23 @@ TRename == Step_(/\ Ev.op = "rename"
 TImage == Step_(/\ Ev.op = "image"
                 /\ ImageOK(Ev.cuts, Ev.res)
                 /\ UNCHANGED <<tab, g, pend, rep>>)
+(* TODO-KNOWN-FINDING (C24-F1, C24-F2): an image the real NewFreezer refused to open is accepted as    *)
+(* pending iff the specification computes a failure of exactly one of the two known kinds for it      *)
+KnownFailure(o) == FailedOf(o.tabs) /\ (KnownF1(o.tabs) \/ KnownF2(o.tabs))
+WhichKnown(o) == IF KnownF1(o.tabs) THEN "C24-F1" ELSE "C24-F2"
+TImageKnown == Step_(/\ Ev.op = "image" /\ ~Ev.res.ok
+                     /\ \E o \in {OpenAll(Crashed(Ev.cuts))} :
+                          /\ \A t \in Tables : CutLensOK(Ev.cuts[t], tab[t])
+                          /\ KnownFailure(o)
+                          /\ PrintT(<<"PENDING", ToJson([line |-> l, finding |-> WhichKnown(o), at |-> Ev.at])>>)
+                     /\ UNCHANGED <<tab, g, pend, rep>>)
+(* the main line itself crashed into such an image: the history ends here *)
+TReopenKnown == Step_(/\ Ev.op = "reopen" /\ ~Ev.res.ok
+                      /\ \E o \in {OpenAll(tab)} :
+                           /\ KnownFailure(o)
+                           /\ PrintT(<<"PENDING", ToJson([line |-> l, finding |-> WhichKnown(o), at |-> "main line"])>>)
+                      /\ UNCHANGED <<tab, g, pend, rep>>)
+
 (* diagnostics for a rejected image: what the specification computes for it (never advances) *)
 Explain(cuts, res) ==
   LET o == OpenAll(Crashed(cuts)) IN
@@ -159,6 +176,7 @@ Explain(cuts, res) ==
     readable_correct |-> ReadableCorrectOf(o.tabs, g), durable |-> DurableOf(o.tabs, g),
     ghost |-> [lo |-> g.lo, hi |-> g.hi] ]
 TImageBad == /\ l <= Len(Trace) /\ Ev.op = "image" /\ ~ImageOK(Ev.cuts, Ev.res)
+             /\ ~(~Ev.res.ok /\ \E o \in {OpenAll(Crashed(Ev.cuts))} : KnownFailure(o) /\ \A t \in Tables : CutLensOK(Ev.cuts[t], tab[t]))
              /\ PrintT(<<"REJECT", ToJson([line |-> l, explain |-> Explain(Ev.cuts, Ev.res)])>>)
              /\ FALSE /\ UNCHANGED tvars
 
@@ -198,7 +216,7 @@ TReopen == Step_(/\ Ev.op = "reopen"
 TraceInit == /\ tab = FreshTabs /\ queue = <<>> /\ mode = "run" /\ uncut = {}
              /\ g = [app |-> << >>, lo |-> [grp \in Groups |-> 0], hi |-> 0, next |-> 1]
              /\ l = 1 /\ pend = NoPend /\ rep = [head |-> 0, tails |-> [grp \in Groups |-> 0]]
-TraceNext == TInit \/ TCall \/ TPreSync \/ TFsync \/ TRename \/ TImage \/ TImageBad \/ TRet \/ TCrash \/ TReopen
+TraceNext == TInit \/ TCall \/ TPreSync \/ TFsync \/ TRename \/ TImage \/ TImageKnown \/ TImageBad \/ TRet \/ TCrash \/ TReopen \/ TReopenKnown
 TraceSpec == TraceInit /\ [][TraceNext]_tvars
 
 TraceAccepted == TLCGet("stats").diameter - 1 = Len(Trace)
